@@ -174,6 +174,21 @@ func runC06(c *fw.Ctx) {
 			if perr != "" || got != want {
 				c.Violate("clone-prints-differently", "clone-prints-differently:File", id+": whole-file clone prints differently "+perr, string(src))
 			}
+			// the same context includes the restorer: original and clone printed one after the other
+			// by one Restorer (its file set then holds the original when the clone is printed)
+			rs := decorator.NewRestorer()
+			var b1, b2 bytes.Buffer
+			var e1, e2 error
+			if sig, detail := fw.Try(func() {
+				e1 = rs.Fprint(&b1, f)
+				e2 = rs.Fprint(&b2, dst.Clone(f).(*dst.File))
+			}); sig != "" {
+				c.Violate("clone-prints-differently", "clone-prints-differently:File:same-restorer:"+sig, id+": original, then its clone, printed by one Restorer: "+detail, string(src))
+			} else if e1 != nil || e2 != nil || b1.String() != want || b2.String() != want {
+				c.Violate("clone-prints-differently", "clone-prints-differently:File:same-restorer", fmt.Sprintf("%s: original, then its clone, printed by one Restorer: errors %v / %v, original identical to the single print: %v, clone identical: %v", id, e1, e2, b1.String() == want, b2.String() == want), string(src))
+			} else {
+				c.Count("clone_after_original_same_restorer", 1)
+			}
 			// substitute clones of a sample of subtrees, print must stay identical
 			r := c.Rand(id)
 			nodes := refl.DstPreorder(f)
